@@ -17,7 +17,9 @@ The property (this is the only specification you get):
   Statement: {p['statement']}
   Quantified over: {p['quantifier']['text']}
 
-Your task: produce TWO independent changes (m1 and m2, each applied separately to a clean tree, touching different mechanisms/sites) to the TarsGo *non-test source code* such that each change
+Earlier rounds of this exercise have already produced the most obvious mistakes for this property (dropping the central check, off-by-one in the main loop); prefer a less obvious mechanism, a secondary code path, or a different clause of the statement.
+
+Your task: produce TWO independent changes (m1 and m2, each applied separately to a clean tree, touching different mechanisms/sites and preferably different clauses of the statement) to the TarsGo *non-test source code* such that each change
   (a) BREAKS the property above (for some input / schedule / fault / history), 
   (b) still compiles (`go build ./...` in the worktree root, and in tars/tools/tars2go if you touch it) and still passes the existing test suite (`go test -vet=off -count=1 ./tars/...` from the worktree root; note: TestKetamaHashAlg_Hash in tars/selector/consistenthash already fails on the clean tree and is ignored; tars/util/rogger tests take ~20 s),
   (c) needs something SPECIFIC to manifest — a particular interleaving, a crash or fault at a particular point, a multi-step sequence of operations, an unusual input (boundary value, rare wire type, extreme length), or two cooperating sites that each look fine alone — NOT something ordinary use would expose at once,
@@ -27,7 +29,7 @@ For each change also write a DEMONSTRATION: a Go test file (put temporarily in t
 
 Deliverables, for k in (1,2), in /tmp/seed-out/{pid}/m<k>/ :
   - patch.diff    : `git diff` of the source change only (must apply with `git apply` to a clean checkout of the same commit); no demo files inside
-  - demo/         : the demonstration file(s) plus a file RUN.md saying exactly where to copy them and which command to run
+  - demo/         : the demonstration file(s), a file RUN.md saying exactly where to copy them and which command to run, and a machine-readable demo/demo.json: for a Go test demonstration {{"kind":"gotest","files":[{{"src":"demo/<file>_test.go","dst_dir":"<package dir relative to the worktree root, e.g. tars/transport>"}}],"cwd":"<dir relative to the worktree root in which the commands run; empty string for the root>","commands":["go test -vet=off -count=1 -run <TestName> ./<pkg>/"]}}; for a main-program demonstration {{"kind":"script"}} plus a demo/run.sh that takes the path of a TarsGo checkout as $1, builds/runs the program against it (go mod edit -replace github.com/TarsCloud/TarsGo=$1; cp $1/go.sum .) and exits 0 when the property holds on the demonstration's inputs and non-zero when it does not
   - notes.md      : which clause of the property it breaks, what it needs in order to manifest, why the existing tests do not notice, and the commands you ran with their (abridged) output: build ok, test suite ok with the patch, demo fails with the patch, demo passes without it
 
 When you are done, leave the worktree clean (`git checkout -- . && git clean -fd` inside /tmp/seed/{pid}). Your final message should be a short summary (3-6 lines per change): files touched, the idea, and how it manifests. Be economical: read only the code you need.""")
